@@ -193,7 +193,7 @@ class AssetSetTimegrid(Contract):
     call (of this or another asset sharing the grid object) left there (C10.functional for the grid cache)."""
     qualname = 'assets:Asset.set_timegrid'
     prefix = 'C10.set_timegrid'
-    properties = ('C10', 'C02', 'C08')
+    properties = ('C10', 'C02', 'C08', 'C09')
 
     def cases(self):
         return [dict(freq=f) for f in (None, 'own')]
@@ -230,8 +230,9 @@ class AssetSetTimegrid(Contract):
             return
         yield ('C10.set_timegrid.grid_installed', so.has('timegrid') and so.get('timegrid') is g)
         wc = ctx.get('wacc_call')
-        yield ('C10.set_timegrid.discount_for_own_wacc', wc is not None and wc[0] is g and len(wc[1]) == 1 and
-               (wc[1][0] is ctx['w'] or z3.is_true(z3.simplify(lift(wc[1][0]) == ctx['w']))))
+        ok_w = wc is not None and wc[0] is g and len(wc[1]) == 1 and (wc[1][0] is ctx['w'] or z3.is_true(z3.simplify(lift(wc[1][0]) == ctx['w'])))
+        for nm in ('C10.set_timegrid.discount_for_own_wacc', 'C02.discount.installed_for_own_wacc', 'C09.order.discount_independent_of_other_assets'):
+            yield (nm, ok_w)
         rc = ctx.get('restricted_call')
         ok = rc is not None and rc[0] is g and len(rc[1]) == 3 and rc[1][0] is ctx['st'] and rc[1][1] is ctx['en'] and \
             (rc[1][2] is ctx['fr'] or (ctx['fr'] is not None and rc[1][2] is ctx['fr']))
@@ -292,7 +293,9 @@ def _post(self, H, case, outcome, I, ctx):
     tg = ctx['tg']
     exp = ctx['native_expect']
     import numpy as np
-    yield ('C10.set_timegrid.discount_for_own_wacc', bool(np.allclose(np.asarray(tg.discount_factors, dtype=float), exp['df'], rtol=1e-12, atol=0)))
+    ok_w = bool(np.allclose(np.asarray(tg.discount_factors, dtype=float), exp['df'], rtol=1e-12, atol=0))
+    for nm in ('C10.set_timegrid.discount_for_own_wacc', 'C02.discount.installed_for_own_wacc', 'C09.order.discount_independent_of_other_assets'):
+        yield (nm, ok_w)
     yield ('C08.set_timegrid.window_for_own_start_end_freq', [int(v) for v in tg.restricted.I] == exp['I'])
 
 
